@@ -18,11 +18,11 @@ let elem_of_token (t : string) : ArchiveNames.elem =
   | ["B"] -> ArchiveNames.EBad
   | _ -> failwith ("bad element token " ^ t)
 
-(* initial file system, comma separated, parents first:  d:<hexpath>  f:<hexpath>:<hexdata>  l:<hexpath>:<hextarget> *)
+(* initial file system, comma separated, parents first:  d:<hexpath>:<mode>  f:<hexpath>:<mode>:<hexdata>  l:<hexpath>:<hextarget> *)
 let ent_of_token (t : string) =
   match Stdlib.String.split_on_char ':' t with
-  | ["d"; p] -> (bytes_of_hex p, UntarIO.IDir)
-  | ["f"; p; d] -> (bytes_of_hex p, UntarIO.IFile (bytes_of_hex d))
+  | ["d"; p; m] -> (bytes_of_hex p, UntarIO.IDir (n_of_string m))
+  | ["f"; p; m; d] -> (bytes_of_hex p, UntarIO.IFile (n_of_string m, bytes_of_hex d))
   | ["l"; p; d] -> (bytes_of_hex p, UntarIO.ILink (bytes_of_hex d))
   | _ -> failwith ("bad fs token " ^ t)
 
@@ -32,10 +32,14 @@ let policy_of = function
   | "fixed" -> ArchiveNames.Fixed
   | s -> failwith ("bad policy " ^ s)
 
+let meta_s (m : FS.meta) =
+  string_of_n m.FS.m_mode ^ ":" ^ string_of_n m.FS.m_uid ^ ":" ^ string_of_n m.FS.m_gid ^ ":" ^ string_of_n m.FS.m_mtime
+
 let register () =
   (* c18.untar <policy> <no_same_owner><no_same_perms> <hexroot> <fs> <elems>
        -> <done|decode-error|write-error|fuel> <touched hexpaths,> <final listing,>
-     listing entries: d:<hexpath>:<mode>  f:<hexpath>:<mode>:<hexdata>  l:<hexpath>:<hextarget> *)
+     listing entries: d:<hexpath>:<mode>:<uid>:<gid>:<mtime>  f:<hexpath>:<mode>:<uid>:<gid>:<mtime>:<hexdata>
+                      l:<hexpath>:<uid>:<gid>:<hextarget> *)
   Drv.register "c18.untar" (fun args -> match args with
     | [pol; o; root; fs; elems] ->
         let o = { Untar.no_same_owner = (o.[0] = '1'); Untar.no_same_perms = (o.[1] = '1') } in
@@ -48,13 +52,13 @@ let register () =
         let touched = Stdlib.List.map (fun p -> hex_of_bytes (UntarIO.str_of_path p)) st.Untar.w_touched in
         let touched = Stdlib.List.sort_uniq compare touched in
         let listing = Stdlib.List.map (fun (p, e) -> match e with
-          | FS.EDir m -> "d:" ^ hex_of_bytes p ^ ":" ^ string_of_n m.FS.m_mode
-          | FS.EFile (m, d) -> "f:" ^ hex_of_bytes p ^ ":" ^ string_of_n m.FS.m_mode ^ ":" ^ hex_of_bytes d
-          | FS.ELink (m, t) -> "l:" ^ hex_of_bytes p ^ ":" ^ hex_of_bytes t) (UntarIO.dump_fs st.Untar.w_fs) in
+          | FS.EDir m -> "d:" ^ hex_of_bytes p ^ ":" ^ meta_s m
+          | FS.EFile (m, d) -> "f:" ^ hex_of_bytes p ^ ":" ^ meta_s m ^ ":" ^ hex_of_bytes d
+          | FS.ELink (m, t) -> "l:" ^ hex_of_bytes p ^ ":" ^ string_of_n m.FS.m_uid ^ ":" ^ string_of_n m.FS.m_gid ^ ":" ^ hex_of_bytes t) (UntarIO.dump_fs st.Untar.w_fs) in
         let j l = if l = [] then "-" else Stdlib.String.concat "," l in
         outs ^ " " ^ j touched ^ " " ^ j listing
     | _ -> "ERR args");
-  (* c18.nodes <policy> <elems> -> per node  <kind>:<hexname>:<hexbase>, ...  *)
+  (* c18.nodes <policy> <elems> -> <end|error> then per node  <kind>:<hexname>:<hexbase>, ...  *)
   Drv.register "c18.nodes" (fun args -> match args with
     | [pol; elems] ->
         let es = Stdlib.List.map elem_of_token (split_on ',' elems) in
@@ -64,5 +68,6 @@ let register () =
             | ArchiveNames.NDir (s, _) -> "d", s | ArchiveNames.NFile (s, _, _) -> "f", s
             | ArchiveNames.NSymlink (s, _, _) -> "l", s | ArchiveNames.NDevice (s, _, _, _) -> "v", s) in
           k ^ ":" ^ hex_of_bytes name ^ ":" ^ hex_of_bytes base in
-        if ns = [] then "-" else Stdlib.String.concat "," (Stdlib.List.map tok ns)
+        (if ArchiveNames.nodes_end (policy_of pol) es then "end" else "error") ^ " " ^
+        (if ns = [] then "-" else Stdlib.String.concat "," (Stdlib.List.map tok ns))
     | _ -> "ERR args")
